@@ -37,12 +37,13 @@ def step (s : S) (line : String) : S × String :=
         | some b => splitNul b
         | none => []
       if (arg? ws "stdin").isSome then ({ s with last := none }, "nopred") else
-      match runTool tool argv (lookupFile s) with
-      | some out =>
+      match runToolFull tool argv (lookupFile s) with
+      | some (out, written) =>
         -- `esl-sfetch --index f` leaves `f.ssi` behind: later fetches of the case may rely on it
         let files := match tool, argv with
           | "esl-sfetch", ["--index", f] => (f ++ ".ssi", some []) :: s.files
-          | _, _ => (filesWritten tool argv (lookupFile s)).map (fun p => (p.1, some p.2)) ++ s.files
+          | "easel", ["index", f] => (f ++ ".ssi", some []) :: s.files
+          | _, _ => written.map (fun p => (p.1, some p.2)) ++ s.files
         ({ s with last := some out.toList, files := files }, "rc=0 out=" ++ hexOrDash (charsToBytes out.toList))
       | none => ({ s with last := none }, "nopred")
     | _, _ => (s, "bad-op")
